@@ -539,11 +539,14 @@ func (e *Enc) applyContract(ci ssa.CallInstruction, fc *FuncContract, fn *ssa.Fu
 			for i, p := range fn.Params {
 				if i < len(args) {
 					se.binds[p.Name()] = specVal{t: args[i], typ: p.Type()}
+				e.prog.aliasName(se.binds, fn, "params", i, p.Name())
+					e.prog.aliasName(se.binds, fn, "params", i, p.Name())
 				}
 			}
 			for i, fv := range fn.FreeVars {
 				if i < len(binds) {
 					se.binds[fv.Name()] = specVal{t: binds[i], typ: fv.Type(), cell: true}
+					e.prog.aliasName(se.binds, fn, "freevars", i, fv.Name())
 				}
 			}
 			if results != nil {
@@ -1238,10 +1241,12 @@ func (e *Enc) execGo(x *ssa.Go) error {
 			se := &specEnv{e: e, old: e.cur, cur: e.cur, binds: map[string]specVal{}, noLocal: true, pkg: fn.Pkg.Pkg}
 			for i, p := range fn.Params {
 				se.binds[p.Name()] = specVal{t: args[i], typ: p.Type()}
+				e.prog.aliasName(se.binds, fn, "params", i, p.Name())
 			}
 			for i, fv := range fn.FreeVars {
 				if i < len(binds) {
 					se.binds[fv.Name()] = specVal{t: binds[i], typ: fv.Type(), cell: true}
+					e.prog.aliasName(se.binds, fn, "freevars", i, fv.Name())
 				}
 			}
 			for k, cl := range fc.Requires {
@@ -1556,6 +1561,9 @@ func (e *Enc) callWrites(li *loopInfo, ci ssa.CallInstruction, ws writeSets) boo
 				for i, p := range fn.Params {
 					if i < len(args) {
 						se.binds[p.Name()] = specVal{t: args[i], typ: p.Type()}
+						e.prog.aliasName(se.binds, fn, "params", i, p.Name())
+				e.prog.aliasName(se.binds, fn, "params", i, p.Name())
+					e.prog.aliasName(se.binds, fn, "params", i, p.Name())
 					}
 				}
 				if mc, ok := c.Value.(*ssa.MakeClosure); ok {
